@@ -50,6 +50,9 @@ def run(res, tier):
         with open(errf, "w") as ef:
             p = subprocess.run([vdrive, "conc-run", "-out", tr, "-summary", summ, "-n", str(nconn), "-seed", str(seed())], stdout=subprocess.PIPE, stderr=ef, text=True, timeout=3000)
         if p.returncode != 0:
+            rcr = repo_crash(open(errf).read())
+            if rcr:
+                raise RepoCrash(rcr[0], rcr[1], "conc-run", open(errf).read()[-3000:])
             raise Inconclusive(f"conc-run failed rc={p.returncode}: {p.stdout[-1500:]} " + open(errf).read()[-1500:])
         s = json.load(open(summ))
         n, bad, st = validate_traces(tmp, tr, "conc_traces.ndjson", "L4ConcTrace.tla", "L4ConcTrace.cfg", max_shards=4)
@@ -74,6 +77,9 @@ def run(res, tier):
                                     env=dict(os.environ, GORACE="halt_on_error=0 exitcode=0"))
             txt = open(e).read()
             if pr.returncode != 0 and "DATA RACE" not in txt:
+                rcr = repo_crash(txt)
+                if rcr:
+                    raise RepoCrash(rcr[0], rcr[1], name + " under -race", txt[-3000:])
                 raise Inconclusive(f"{name} under -race failed rc={pr.returncode}: {pr.stdout[-800:]} {txt[-1500:]}")
             runs.append(name)
             return race_reports(txt)
